@@ -162,11 +162,15 @@ CHECKS["C03"] = dict(
     text="For every program the model generators emit for the enumerated family (shape x crown x extra policy x extra "
          "move x debug_trail x strict_coercion) the emitted text is audited against the crown handed to the generator: "
          "read path = write path = crown path per field, key-set constants, per-node extra-policy code, list length "
-         "checks, placeholders, sieve conditions, extras delivery. Each program is decided for all its inputs at once; "
-         "the family is finite and enumerated completely within its stated bounds.",
-    level_note="Trusted: " + TBG + ". How name_mapping options become a crown (overlay merge, name styles) is not "
-               "decided. Two genuine defects are recorded as known findings (structural key in collected extras; "
-               "shallow merge of extras in the dumper).",
+         "checks, placeholders, sieve conditions, extras delivery, unconditional unknown-key check. Second stage: the "
+         "whole compilation pipeline (name_mapping facade, overlay merge of several providers, key generation, map "
+         "lookup, skip/only, as_list, validation, crown building, code generation) is driven through a real Retort with "
+         "a CodeGenAccumulator on enumerated name_mapping configurations and every emitted loader/dumper must read/write "
+         "each field at the path an independent oracle derives from the documented rules (and invalid layouts must be "
+         "refused). Each program is decided for all its inputs at once; the families are finite and enumerated.",
+    level_note="Trusted: " + TBG + "; the layout oracle (_layout_oracle in sa/genprog.py) written from the documentation. "
+               "Two genuine defects are recorded as known findings (structural key in collected extras; shallow merge "
+               "of extras in the dumper); as_list + extra_out was repaired (fix commit).",
     design_ref="DESIGN.md 3/C03",
 )
 CHECKS["C08"] = dict(
